@@ -88,6 +88,33 @@ pub fn byte_families(level: u32, seed: u64) -> Vec<Family> {
         p.push(vec![0x02, l, l]);
         v.push(fam(&format!("fanout_254+256+[02,{l:02x},{l:02x}]"), p));
     }
+    // block-fill grid: a full first block (k one-byte patterns), one state F below the largest label
+    // that opens the next block through the fallback with a sparse child set, and m states with all
+    // 256 children that each take a whole block (so that blocks are dropped while block 1 still has
+    // vacancies at its very beginning)
+    let ks: &[usize] = if level >= 1 { &[253, 254, 255] } else { &[254] };
+    let ms: &[usize] = if level >= 1 { &[1, 2, 3, 6] } else { &[3, 6] };
+    let fsets: &[&[u8]] = &[&[0x01], &[0x01, 0x02], &[0xff], &[0x00, 0x01], &[0x02, 0x80]];
+    for &k in ks {
+        for &m in ms {
+            for (fi, fs) in fsets.iter().enumerate() {
+                if level == 0 && fi > 2 {
+                    continue;
+                }
+                let mut p: Vec<Vec<u8>> = (0..k).map(|i| vec![i as u8]).collect();
+                let top = (k - 1) as u8;
+                for &c in fs.iter() {
+                    p.push(vec![top, c]);
+                }
+                for j in 1..=m {
+                    for c in 0..=255u8 {
+                        p.push(vec![j as u8, c]);
+                    }
+                }
+                v.push(fam(&format!("blockfill_k{k}_m{m}_F{}", fs.iter().map(|b| format!("{b:02x}")).collect::<Vec<_>>().join("")), p));
+            }
+        }
+    }
     // fan-out plus second level that has to go to the next block
     let mut f2: Vec<Vec<u8>> = (0..256usize).map(|i| vec![i as u8]).collect();
     for i in 0..256usize {
